@@ -571,6 +571,13 @@ impl RobotBody {
                 });
             }
         }
+        #[cfg(opw_verif)]
+        crate::verif_hooks::emit("tasks", || {
+            let pairs: Vec<String> = tasks.iter().map(|t| format!("[{},{}]", t.i, t.j)).collect();
+            let mut skipped: Vec<usize> = skip.iter().cloned().collect();
+            skipped.sort();
+            format!("{{\"pairs\":[{}],\"skip\":{:?}}}", pairs.join(","), skipped)
+        });
         Self::process_collision_tasks(tasks, safety_distances, override_mode)
     }
 
